@@ -279,17 +279,17 @@ prop("C20", "TestC20", q, t,
 # ---- generator self-test: minimum class shares (about half of what is measured on the unchanged tree).
 # A run whose generator falls below them is a harness failure (exit 2), never a property verdict.
 MIN_SHARE = {
-    "C01": {"interleaved repeated siblings": 0.08, "key collision by folding or empty prefix": 0.05, "text beside attributes/children": 0.3, "options change the expected Map": 0.4},
-    "C02": {"list": 0.1, "text plus children": 0.15, "attribute-only element": 0.2},
+    "C01": {"interleaved repeated siblings": 0.055, "key collision by folding or empty prefix": 0.025, "text beside attributes/children": 0.3, "options change the expected Map": 0.4},
+    "C02": {"list": 0.08, "text plus children": 0.12, "attribute-only element": 0.2},
     "C03": {"list with >=2 members": 0.04, "nested list": 0.02, "null inside a list": 0.02, "empty list": 0.03},
-    "C04": {"non-contiguous repeated sibling": 0.06, "comment/PI/directive between elements": 0.1, "leading text with children": 0.15},
-    "C07": {"non-empty result": 0.5, "non-empty and crosses a list or uses */[i]": 0.25, "non-empty with >=2 indexed steps": 0.01, "result wider than 32": 0.01, "list-in-list map": 0.02},
+    "C04": {"non-contiguous repeated sibling": 0.04, "comment/PI/directive between elements": 0.1, "leading text with children": 0.15},
+    "C07": {"non-empty result": 0.4, "non-empty and crosses a list or uses */[i]": 0.25, "non-empty with >=2 indexed steps": 0.01, "result wider than 32": 0.01, "list-in-list map": 0.02},
     "C08": {"filter: some pass, some fail": 0.03, "key at >=2 depths": 0.15, "key below a list nested in a list": 0.03},
     "C09": {">=2 leaves and a list on a leaf path": 0.2, "two list levels separated by a plain key": 0.08, "resolution clause exercised": 0.1},
     "C10": {"mandatory target present": 0.08, "list is the parent of the last step": 0.02},
     "C11": {"rename refused for an existing sibling": 0.1, "history with >=3 successful mutations": 0.2},
     "C12": {">=2 pairs with non-empty results": 0.2, "a projected value is a map": 0.08, "overlapping new paths (receiver clause only)": 0.1},
-    "C13": {"schedule delivered a (0,nil) read": 0.3, "a read spanned a document boundary": 0.07, "final data delivered together with io.EOF": 0.25},
+    "C13": {"schedule delivered a (0,nil) read": 0.3, "a read spanned a document boundary": 0.07, "final data delivered together with io.EOF": 0.2},
     "C14": {"a leaf changed type": 0.25, "skip-tag function set": 0.2},
     "C15": {"argument outside the clean grammar": 0.15, "rejected by the reference": 0.1, "mutated but still accepted": 0.03},
     "C16": {"element with >=3 children": 0.1, "element with >=2 attributes": 0.15},
